@@ -237,13 +237,14 @@ func parse(block txt.Block) (klog.Record, []txt.Error) {
 				if nextEntrySummaryLine == nil {
 					break
 				}
+				lineNr := nr(lines) // Capture line number before consuming the line.
 				lines = lines[1:]
 				additionalText, _ := nextEntrySummaryLine.PeekUntil(func(_ rune) bool {
 					return false // Move forward until end of line
 				})
 				newEntrySummary, sErr := klog.NewEntrySummary(append(result, additionalText.ToString())...)
 				if sErr != nil {
-					return nil, ErrorMalformedSummary().New(block, nr(lines), 0, nextEntrySummaryLine.Length())
+					return nil, ErrorMalformedSummary().New(block, lineNr, 0, nextEntrySummaryLine.Length())
 				}
 				result = newEntrySummary
 			}
